@@ -103,13 +103,13 @@ func c18decode(data []byte, rev int, res proto.Results) error {
 func TestC18Binding(t *testing.T) {
 	st := stats.G()
 	classes := []string{"identical", "permuted", "renamed", "extra-column", "missing-column", "blank-names", "type-swapped",
-		"fixedstring-size", "zero-rows-no-targets", "zero-rows-with-targets", "custom-serialization", "schema-change-sequence", "auto-targets-enforced"}
+		"fixedstring-size", "zero-rows-no-targets", "zero-rows-with-targets", "custom-serialization", "schema-change-sequence", "auto-targets-enforced", "autoresult-reinferred"}
 	rapid.Check(t, func(rt *rapid.T) {
 		class := rapid.SampledFrom(classes).Draw(rt, "class")
 		rev := rapid.SampledFrom(blockRevs).Draw(rt, "rev")
 		n := rapid.IntRange(2, 4).Draw(rt, "ncols")
 		kinds := distinctKinds(rt, n)
-		if class == "auto-targets-enforced" {
+		if class == "auto-targets-enforced" || class == "autoresult-reinferred" {
 			kinds = distinctKindsFrom(rt, n, inferableKinds())
 		}
 		rows := rapid.IntRange(1, 6).Draw(rt, "rows")
@@ -377,6 +377,46 @@ func TestC18Binding(t *testing.T) {
 				}
 				if len(vals) != 0 && !first && !own {
 					rt.Fatalf("[%s] second block (%s) rejected, but target %d (%s) holds %d rows that are neither the first block's nor its own column", class, how, k, cols[k].Kind.T.Name, len(vals))
+				}
+			}
+		case "autoresult-reinferred":
+			// Caller-placed inferring targets (proto.AutoResult) reused for several blocks whose
+			// column types change under unchanged names: every block is decoded with its own
+			// types (same width, other width, composite instead of scalar).
+			var res proto.Results
+			for _, c := range cols {
+				res = append(res, proto.AutoResult(c.Name))
+			}
+			cur := cols
+			for b, nb := 0, rapid.IntRange(2, 4).Draw(rt, "blocks"); b < nb; b++ {
+				if b > 0 {
+					next := distinctKindsFrom(rt, n, inferableKinds())
+					cur = nil
+					for i, k := range next {
+						if rapid.IntRange(0, 2).Draw(rt, "keep-type") == 0 {
+							k = cols[i].Kind
+						}
+						cur = append(cur, colSpec{Name: cols[i].Name, Kind: k})
+					}
+					r2 := rapid.IntRange(0, 5).Draw(rt, "rows")
+					for i := range cur {
+						cur[i].Rows = gen.DrawRows(rt, cur[i].Kind, r2)
+					}
+				}
+				if err := c18decode(encodeRefBlock(rev, blockCols(cur), -1), rev, res); err != nil {
+					rt.Fatalf("[%s] block %d (%v) into reused AutoResult targets: %v", class, b, typeNames(cur), err)
+				}
+				for i, c := range cur {
+					if res[i].Data.Type().Conflicts(proto.ColumnType(c.Kind.T.Name)) {
+						rt.Fatalf("[%s] block %d: target %d reports %q for a column of type %q", class, b, i, res[i].Data.Type(), c.Kind.T.Name)
+					}
+					vals, rerr := gen.ReflectRows(c.Kind.T, res[i].Data)
+					if rerr != nil {
+						rt.Fatalf("[%s] block %d: target %d (%s): %v", class, b, i, c.Kind.T.Name, rerr)
+					}
+					if j, ok := ref.EqualRows(c.Kind.T, vals, c.Rows); !ok {
+						rt.Fatalf("[%s] block %d: target %d (%s, previously %s) row %d differs: the target was not re-inferred for the block's type", class, b, i, c.Kind.T.Name, cols[i].Kind.T.Name, j)
+					}
 				}
 			}
 		case "schema-change-sequence":
